@@ -313,19 +313,27 @@ bool Instance::eval(const size_t argc, char* const* argv) {
         return false;
     }
     CScript::const_iterator it = script.begin();
+    const CScript::const_iterator codehash_before = env->pbegincodehash;
+    bool ok = true;
     try {
         while (it != script.end()) {
             if (!StepScript(*env, it, &script)) {
                 fprintf(stderr, "Error: %s\n", ScriptErrorString(*env->serror).c_str());
-                return false;
+                ok = false;
+                break;
             }
         }
     } catch (const std::exception& ex) {
         // e.g. scriptnum_error on a numeric operand that is too long
         fprintf(stderr, "Error: exception thrown: %s\n", ex.what());
-        return false;
+        ok = false;
     }
-    return true;
+    if (env->pbegincodehash != codehash_before) {
+        // an executed OP_CODESEPARATOR made the script code start point into the temporary script,
+        // which is about to be destroyed: the code that follows it is the rest of the debugged script
+        env->pbegincodehash = env->pc;
+    }
+    return ok;
 }
 
 bool Instance::configure_tx_txin() {
